@@ -1,4 +1,5 @@
 import PallasVerif.Model.U5c
+import PallasVerif.Model.U5cTx
 /-!
 # C44 — UTxO RPC mapping preserves ledger content
 
@@ -19,13 +20,26 @@ to big-integer bytes`.
 * `unfixed_truncates_at_witness` — the code before the repair (`i128::from(x) as i64`) maps 2^63 to
   −2^63 and −2^64 to 0 (DESIGN §6 #29).
 
-Only sampled by the stream `u5c` (oracle in the harness, no Lean model): `map_tx`, `map_tx_output`,
-`map_block` on all blocks and transactions of `test_data` in both schema versions — hash, inputs,
-outputs (address, coin, assets), fee, validity, datums — and generated transactions carrying
-datums with integers over the full CBOR range. That is why the claimed level is `other`.
+* `map_tx_preserves`, `map_block_preserves` — `Model/U5cTx.lean` transcribes `map_tx`, `map_tx_output`,
+  `map_tx_datum`, `map_tx_input`, `map_policy_assets`/`map_asset`, `map_any_script`, `map_redeemer`,
+  `map_withdrawals`, `map_block` as a projection from the ledger view of a transaction (what the
+  mapper reads through pallas-traverse) to the message (one model for both schema versions: they
+  build the same content). For every view within the ledger's ranges (`TxWf`): hash, inputs /
+  collateral / reference inputs, every output (address bytes, coin, assets, datum hash / inline
+  content / original bytes, script), collateral return, fee, total collateral, validity interval,
+  mint, withdrawals, certificate count, witness datums, redeemers and the validity flag of the
+  message equal the ledger's. `input_index_truncates_at_witness` shows the one place where the
+  projection loses information outside `TxWf` (`index as u32`).
+
+Outside the model (the stream `u5c` ties the model to both mappers on every transaction of every
+block / tx file of `test_data` and on generated transactions, and an oracle re-extracts each field):
+how pallas-traverse reads the view from bytes, the prost wrappers and the version-specific extras
+(`original_cbor` of outputs / redeemers, v1beta-only witness redeemers and bootstrap witnesses), the
+contents of certificates, governance actions, auxiliary data and protocol parameters, resolved
+inputs (`as_output`).
 -/
 namespace PallasVerif.Props.C44
-open PallasVerif.U5c
+open PallasVerif.U5c PallasVerif.U5cTx
 
 /-! ## byte strings and numbers -/
 
@@ -230,5 +244,197 @@ example : u64ToBigInt 18446744073709551615 = .bigUInt [255, 255, 255, 255, 255, 
 example : u64ToBigInt 9223372036854775807 = .int 9223372036854775807 := by decide
 example : TagsOk (.constr 121 none [.bigInt (.int 18446744073709551615), .map [(.bytes [1], .array [])]]) := by
   simp [TagsOk, TagsOkL, TagsOkP]
+
+/-! ## `map_tx` / `map_block`: every projected field equals the ledger field -/
+
+def u64Bound : Nat := 18446744073709551616
+
+/-- quantities by value -/
+def assetVals (m : List (Bytes × List (Bytes × UInt))) : List (Bytes × List (Bytes × Int)) :=
+  m.map (fun p => (p.1, p.2.map (fun a => (a.1, a.2.val))))
+
+/-- the ledger-side ranges: `u64` coins and quantities, tags that fit the schema (`TagsOk`) -/
+def OutputWf (o : LOutput) : Prop :=
+  o.coin < u64Bound ∧ (∀ p ∈ o.assets, ∀ a ∈ p.2, a.2 < u64Bound) ∧
+  (∀ c d, o.datum = some (.inline c d) → TagsOk d)
+
+def TxWf (t : LTx) : Prop :=
+  (∀ i ∈ t.inputs ++ t.collateral ++ t.referenceInputs, i.index < 4294967296) ∧
+  (∀ o ∈ t.outputs, OutputWf o) ∧ (∀ o, t.collateralReturn = some o → OutputWf o) ∧
+  t.fee.getD 0 < u64Bound ∧ t.totalCollateral.getD 0 < u64Bound ∧
+  (∀ w ∈ t.withdrawals, w.2 < u64Bound) ∧ (∀ d ∈ t.witnessDatums, TagsOk d.2) ∧ (∀ r ∈ t.redeemers, TagsOk r.data)
+
+theorem mapInput_exact (i : LInput) (h : i.index < 4294967296) :
+    (mapInput i).txHash = i.hash ∧ (mapInput i).outputIndex = i.index := by
+  simp [mapInput, Nat.mod_eq_of_lt h]
+
+theorem mapInputs_exact (l : List LInput) (h : ∀ i ∈ l, i.index < 4294967296) :
+    (l.map mapInput).map (fun u => (u.txHash, u.outputIndex)) = l.map (fun i => (i.hash, i.index)) := by
+  rw [List.map_map]
+  apply List.map_congr_left
+  intro i hi
+  simp [mapInput, Nat.mod_eq_of_lt (h i hi)]
+
+theorem outputAssets_exact (m : LAssets Nat) (h : ∀ p ∈ m, ∀ a ∈ p.2, a.2 < u64Bound) :
+    assetVals (mapOutputAssets m) = m.map (fun p => (p.1, p.2.map (fun a => (a.1, (a.2 : Int))))) := by
+  unfold assetVals mapOutputAssets
+  rw [List.map_map]
+  apply List.map_congr_left
+  intro p hp
+  simp only [Function.comp, List.map_map, Prod.mk.injEq, true_and]
+  apply List.map_congr_left
+  intro a ha
+  simp [Function.comp, u64_exact a.2 (h p hp a ha)]
+
+theorem mintNames_exact (l : List (Bytes × Int)) :
+    (l.map (fun a => (a.1, i64ToBigInt a.2))).map (fun a => (a.1, a.2.val)) = l := by
+  induction l with
+  | nil => rfl
+  | cons a t ih => simp only [List.map_cons, ih, i64_exact]
+
+theorem mintAssets_exact (m : LAssets Int) : assetVals (mapMintAssets m) = m := by
+  induction m with
+  | nil => rfl
+  | cons p t ih =>
+    unfold assetVals mapMintAssets at ih ⊢
+    simp only [List.map_cons, ih, mintNames_exact]
+
+/-- what an output's datum must carry over -/
+def DatumPreserved (witness : List (Bytes × PData)) : Option LDatum → UDatum → Prop
+  | none, u => u.hash = [] ∧ u.payload = none ∧ u.originalCbor = []
+  | some (.hash h), u => u.hash = h ∧ u.originalCbor = [] ∧
+      (match findDatum witness h with
+       | none => u.payload = none
+       | some d => ∃ p, u.payload = some p ∧ (TagsOk d → denoteU p = denoteP d))
+  | some (.inline c d), u => u.hash = datumHash c ∧ u.originalCbor = c ∧
+      ∃ p, u.payload = some p ∧ (TagsOk d → denoteU p = denoteP d)
+
+theorem mapTxDatum_preserves (witness : List (Bytes × PData)) (d : Option LDatum) :
+    DatumPreserved witness d (mapTxDatum witness d) := by
+  cases d with
+  | none => simp [DatumPreserved, mapTxDatum]
+  | some x =>
+    cases x with
+    | hash h =>
+      simp only [DatumPreserved, mapTxDatum, true_and]
+      cases hf : findDatum witness h with
+      | none => simp
+      | some d => exact ⟨mapDatum d, by simp, fun ht => datum_map_preserves d ht⟩
+    | inline c d =>
+      exact ⟨rfl, rfl, mapDatum d, rfl, fun ht => datum_map_preserves d ht⟩
+
+/-- an output keeps its address bytes, coin, assets (policy, name, quantity by value, in order),
+    datum (hash / inline content / original bytes) and script reference -/
+def OutputPreserved (witness : List (Bytes × PData)) (o : LOutput) (u : UOutput) : Prop :=
+  u.address = o.address ∧ u.coin.val = o.coin ∧
+  assetVals u.assets = o.assets.map (fun p => (p.1, p.2.map (fun a => (a.1, (a.2 : Int))))) ∧
+  DatumPreserved witness o.datum u.datum ∧
+  (match o.script, u.script with
+   | none, none => True
+   | some (.native s), some (.native s') => s' = s
+   | some (.plutus v b), some (.plutus v' b') => v' = v ∧ b' = b
+   | _, _ => False)
+
+theorem mapOutput_preserves (witness : List (Bytes × PData)) (o : LOutput) (h : OutputWf o) :
+    OutputPreserved witness o (mapOutput witness o) := by
+  refine ⟨rfl, u64_exact o.coin h.1, outputAssets_exact o.assets h.2.1, mapTxDatum_preserves witness o.datum, ?_⟩
+  simp only [mapOutput]
+  cases o.script with
+  | none => simp
+  | some s => cases s <;> simp [mapScript]
+
+/-- position by position -/
+inductive Forall2 {α β : Type} (R : α → β → Prop) : List α → List β → Prop
+  | nil : Forall2 R [] []
+  | cons {a : α} {b : β} {as : List α} {bs : List β} : R a b → Forall2 R as bs → Forall2 R (a :: as) (b :: bs)
+
+theorem forall2_map {α β : Type} (R : α → β → Prop) (f : α → β) (l : List α) (h : ∀ a ∈ l, R a (f a)) :
+    Forall2 R l (l.map f) := by
+  induction l with
+  | nil => exact .nil
+  | cons a t ih => exact .cons (h a (by simp)) (ih (fun x hx => h x (by simp [hx])))
+
+/-- **`map_tx` preserves the ledger content**, for every transaction view within the ledger's ranges
+    (`TxWf`), in either schema version (they share this projection): hash; inputs, collateral and
+    reference inputs as (transaction id, index), in order; every output (address bytes, coin, assets,
+    datum, script) and the collateral return; fee and total collateral by value; validity interval;
+    mint (policy, name, signed quantity); withdrawals; number of certificates; witness datums and
+    redeemer payloads by content; validity flag. -/
+theorem map_tx_preserves (t : LTx) (h : TxWf t) :
+    (mapTx t).hash = t.hash ∧
+    (mapTx t).inputs.map (fun u => (u.txHash, u.outputIndex)) = t.inputs.map (fun i => (i.hash, i.index)) ∧
+    (mapTx t).collateral.map (fun u => (u.txHash, u.outputIndex)) = t.collateral.map (fun i => (i.hash, i.index)) ∧
+    (mapTx t).referenceInputs.map (fun u => (u.txHash, u.outputIndex)) = t.referenceInputs.map (fun i => (i.hash, i.index)) ∧
+    Forall2 (OutputPreserved t.witnessDatums) t.outputs (mapTx t).outputs ∧
+    (match t.collateralReturn, (mapTx t).collateralReturn with
+      | none, none => True
+      | some o, some u => OutputPreserved t.witnessDatums o u
+      | _, _ => False) ∧
+    (mapTx t).fee.val = t.fee.getD 0 ∧ (mapTx t).totalCollateral.val = t.totalCollateral.getD 0 ∧
+    (mapTx t).validityStart = t.validityStart.getD 0 ∧ (mapTx t).ttl = t.ttl.getD 0 ∧
+    assetVals (mapTx t).mint = t.mint ∧
+    (mapTx t).withdrawals.map (fun w => (w.1, w.2.val)) = t.withdrawals.map (fun w => (w.1, (w.2 : Int))) ∧
+    (mapTx t).certs = t.certs ∧
+    (mapTx t).witnessDatums.map denoteU = t.witnessDatums.map (fun d => denoteP d.2) ∧
+    Forall2 (fun (r : LRedeemer) (u : URedeemer) => u.purpose = r.tag + 1 ∧ u.index = r.index ∧ u.mem = r.mem ∧
+      u.steps = r.steps ∧ denoteU u.payload = denoteP r.data) t.redeemers (mapTx t).redeemers ∧
+    (mapTx t).successful = t.isValid := by
+  obtain ⟨hidx, hout, hcr, hfee, htc, hwd, hpd, hrd⟩ := h
+  refine ⟨rfl, ?_, ?_, ?_, ?_, ?_, u64_exact _ hfee, u64_exact _ htc, rfl, rfl, mintAssets_exact t.mint, ?_, rfl, ?_, ?_, rfl⟩
+  · exact mapInputs_exact _ (fun i hi => hidx i (by simp [hi]))
+  · exact mapInputs_exact _ (fun i hi => hidx i (by simp [hi]))
+  · exact mapInputs_exact _ (fun i hi => hidx i (by simp [hi]))
+  · exact forall2_map _ _ _ (fun o ho => mapOutput_preserves _ o (hout o ho))
+  · simp only [mapTx]
+    cases hc : t.collateralReturn with
+    | none => simp
+    | some o => simpa using mapOutput_preserves _ o (hcr o hc)
+  · simp only [mapTx, List.map_map]
+    apply List.map_congr_left
+    intro w hw
+    simp [Function.comp, u64_exact w.2 (hwd w hw)]
+  · simp only [mapTx, List.map_map]
+    apply List.map_congr_left
+    intro d hd
+    simp [Function.comp, datum_map_preserves d.2 (hpd d hd)]
+  · exact forall2_map _ _ _ (fun r hr => ⟨rfl, rfl, rfl, rfl, datum_map_preserves r.data (hrd r hr)⟩)
+
+/-- `map_block`: slot, hash, height and the transactions in order, each mapped by `map_tx` -/
+theorem map_block_preserves (b : LBlock) :
+    (mapBlock b).slot = b.slot ∧ (mapBlock b).hash = b.hash ∧ (mapBlock b).height = b.height ∧
+    (mapBlock b).txs = b.txs.map mapTx := ⟨rfl, rfl, rfl, rfl⟩
+
+/-- where the projection is *not* faithful: an output index that does not fit the schema's `uint32`
+    is truncated (`index() as u32`) — outside `TxWf` -/
+theorem input_index_truncates_at_witness :
+    (mapInput { hash := [1], index := 4294967296 }).outputIndex = 0 := by decide
+
+/-! ### non-vacuity -/
+def exOut : LOutput :=
+  { address := [97], coin := 18446744073709551615, assets := [([5], [([65], 9223372036854775808)])],
+    datum := some (.inline [24, 42] (.bigInt (.int 18446744073709551615))), script := some (.plutus 2 [1, 2]) }
+
+def exTx : LTx :=
+  { hash := [9], inputs := [⟨[1], 0⟩, ⟨[1], 7⟩], outputs := [exOut], fee := some 170000, validityStart := none, ttl := some 5,
+    mint := [([5], [([65], -9223372036854775808)])], collateral := [], collateralReturn := none, totalCollateral := none,
+    referenceInputs := [], withdrawals := [([224], 3)], certs := 1,
+    witnessDatums := [([7], .constr 121 none [.bytes [1]])], redeemers := [], isValid := true }
+
+example : TxWf exTx := by
+  refine ⟨by simp [exTx], ?_, by simp [exTx], by simp [exTx, u64Bound], by simp [exTx, u64Bound], by simp [exTx, u64Bound], ?_, by simp [exTx]⟩
+  · intro o ho
+    simp only [exTx, List.mem_singleton] at ho
+    subst ho
+    refine ⟨by simp [exOut, u64Bound], by simp [exOut, u64Bound], ?_⟩
+    intro c d h
+    simp only [exOut, Option.some.injEq, LDatum.inline.injEq] at h
+    obtain ⟨_, rfl⟩ := h
+    simp [TagsOk]
+  · intro d hd
+    simp only [exTx, List.mem_singleton] at hd
+    subst hd
+    simp [TagsOk, TagsOkL]
+
+example : (mapTx exTx).fee = .int 170000 ∧ ((mapTx exTx).outputs.map (·.coin)) = [.bigUInt [255, 255, 255, 255, 255, 255, 255, 255]] := by decide
 
 end PallasVerif.Props.C44
